@@ -11,6 +11,7 @@ import QuiverModel.Core.Packaging.Merge
 import QuiverModel.Lemmas.Packaging.MergeImport
 import QuiverModel.Lemmas.Packaging.MergeFrame
 import QuiverModel.Lemmas.Packaging.MergeLoops
+import QuiverModel.Lemmas.Packaging.MergeInj
 /-
 C10 — packaging steps preserve behaviour (property theorems).
 
@@ -772,6 +773,7 @@ structure MergeableSource (src : Prog) : Prop where
     source entries stay distinct under an injective remap of their children, so `register_*` cannot map
     them to one target entry). Proved below: the seeded fast path breaks it
     (`merge_fast_path_breaks_renaming`). -/
+/- proved with explicit side conditions as `merge_isRenaming` at the end of this file -/
 def MergeIsRenamingStatement : Prop :=
   ∀ (env src : Prog) (e : Nat) (out : MergeOut), MergeableSource src → mergeBytecode env src e = some out →
     IsStructRenaming out.ren src out.prog e out.entry
@@ -853,5 +855,35 @@ theorem merge_isRenaming_partial {env src : Prog} {e : Nat} {out : MergeOut}
       B'.name = B.name) ∧
     (∀ f, f < src.fns.size → ∃ f', out.ren.fn.get f = some f') :=
   merge_image_clauses h hw hk
+
+/-- **`merge_isRenaming`: `merge_bytecode` is a structural renaming** of the incoming program into the environment's
+    program after the merge — `MergeIsRenamingStatement` with every side condition explicit — for every environment,
+    every incoming program and every entry on which the merge succeeds:
+    * `SrcWf src` (operands in range, backward function references, no `Process` literal) and duplicate-free source
+      tables (`hd`; builtins by name) — `MergeableSource` plus range conditions; decided per merge by the driver;
+    * `hk`: no id bound twice in the final memo tables (decided per merge);
+    * `Stratified src rT rU`: the source type graph has a rank that decreases along references (what makes the
+      injectivity induction go through; true when referents are registered first);
+    * `hfix`: NIL and OK are the field-less tuples 0 and 1 of both programs; `hout`: the merged tuple table is
+      duplicate-free (what `register_tuple` maintains);
+    * `hbt`: a builtin that was already loaded under that name has the renamed parameter / result types (names
+      determine builtins).
+    Proved: the image clauses (`merge_isRenaming_partial`, by memo-consistency of the deep import), injectivity of all
+    five remap tables (`type_tuple_maps_inj` by induction along the stratification with `renameTy_inj`, `fn_map_inj`
+    by induction over the function index with `renameInstr_inj`, constants / builtins from duplicate-freeness),
+    NIL / OK fixed. With `IsStructRenaming.toIsRenaming` and the table clauses this gives `IsRenaming`, hence
+    `run_commutes_with_renaming` for merged programs. -/
+theorem merge_isRenaming {env src : Prog} {e : Nat} {out : MergeOut}
+    (h : mergeBytecode env src e = some out) (hw : SrcWf src)
+    (hk : (out.ren.type.map (·.1)).Nodup ∧ (out.ren.tuple.map (·.1)).Nodup)
+    {rT rU : Nat → Nat} (hs : Stratified src rT rU)
+    (hd : src.consts.toList.Nodup ∧ src.fns.toList.Nodup ∧ src.types.toList.Nodup ∧ src.tuples.toList.Nodup ∧
+      (src.builtins.toList.map (·.name)).Nodup)
+    (hfix : ∀ i, i < 2 → ∃ T : TupleInfo, T.fields = [] ∧ src.tuples[i]? = some T ∧ env.tuples[i]? = some T)
+    (hout : out.prog.tuples.toList.Nodup)
+    (hbt : ∀ b b' B B', out.ren.builtin.get b = some b' → src.builtins[b]? = some B → out.prog.builtins[b']? = some B' →
+      out.ren.type.get B.paramType = some B'.paramType ∧ out.ren.type.get B.resultType = some B'.resultType) :
+    IsStructRenaming out.ren src out.prog e out.entry :=
+  merge_isStructRenaming h hw hk hs hd hfix hout hbt
 
 end C10
